@@ -191,7 +191,13 @@ func checkViews(sh *history.SearchHistory, m []histEntry, k int) string {
 			minTop = f.Count
 		}
 	}
-	for q, n := range count {
+	var cqs []string
+	for q := range count {
+		cqs = append(cqs, q)
+	}
+	sort.Strings(cqs)
+	for _, q := range cqs {
+		n := count[q]
 		if !inTop[q] && n > minTop {
 			return fmt.Sprintf("GetTopQueries(%d) omits %q (%d times) but lists a query used %d times", k, q, n, minTop)
 		}
